@@ -7,7 +7,8 @@ FUNCTIONS = ["gcmpy.joint_degree.joint_degree_loaders.joint_degree_cover.JointDe
 STUBS = []
 BOUNDS = {
     "quick": "every cover of 1-2 cliques of 2..5 vertices over vertex ids z..z+V-1 (V<=5, z in {0,1}, every id used, members of a clique distinct), "
-             "plus 3-clique covers with size patterns (2,2,4),(2,4,4),(2,5,2),(5,2,2),(3,5,2),(2,2,5),(3,3,3) over V<=6 whose first clique is z..z+s-1, plus covers made of a fixed 8- or 9-clique, a fixed triangle and one free 2-/3-clique",
+             "plus 3-clique covers with size patterns (2,2,4),(2,4,4),(2,5,2),(5,2,2),(3,5,2),(2,2,5),(3,3,3) over V<=6 whose first clique is z..z+s-1, plus covers made of a fixed 8- or 9-clique, a fixed triangle and one free 2-/3-clique, plus two concrete high-multiplicity covers "
+             "(a hub in 300 two-cliques, a windmill of 260 triangles)",
     "thorough": "every cover of <=3 cliques over V<=5, and the size-pattern family over V<=6 with 4 cliques",
 }
 OUTSIDE = "covers with more than 4 cliques or cliques above 5 vertices; non-contiguous vertex ids (excluded by the property); the consequence " \
@@ -32,6 +33,9 @@ def configs(tier):
     for big in (8, 9) if q else (8, 9, 12):
         for z in (0, 1):
             cfgs.append({"name": f"big{big}-z{z}", "kind": "big", "big": big, "V": big + 2, "z": z})
+    # large multiplicities (concrete covers, no forking): a hub in 300 two-cliques, a windmill of 260 triangles
+    cfgs.append({"name": "star300", "kind": "concrete", "cover": "star", "m": 300, "z": 0})
+    cfgs.append({"name": "windmill260", "kind": "concrete", "cover": "windmill", "m": 260, "z": 1})
     for pat in PATTERNS + ([] if q else PATTERNS4):
         for z in (0, 1):
             cfgs.append({"name": f"pattern{pat}-z{z}", "kind": "pattern", "sizes": list(pat), "V": 6, "z": z})
@@ -39,7 +43,12 @@ def configs(tier):
 
 
 def fork_cover(ctx, cfg):
-    V, z = cfg["V"], cfg["z"]
+    V, z = cfg.get("V"), cfg["z"]
+    if cfg["kind"] == "concrete":
+        m = cfg["m"]
+        if cfg["cover"] == "star":
+            return [[z, z + i] for i in range(1, m + 1)], m + 1
+        return [[z, z + 2 * i - 1, z + 2 * i] for i in range(1, m + 1)] + [[z + 1, z + 3]], 2 * m + 1
     if cfg["kind"] == "big":
         big = cfg["big"]
         fixed = [list(range(z, z + big)), [z + big - 1, z + big, z + big + 1]]
